@@ -26,6 +26,10 @@ NUMBERS = {
     "Decimal": ["D", "1.25"], "StdDecimal": ["SD", "4.5"],
     "complex": ["cx", 1.0, 2.0],
     "bool": ["b", True], "bool-false": ["b", False],
+    "float-inf": ["fl", "inf"], "float-neg-inf": ["fl", "-inf"],
+    "float-nan": ["fl", "nan"], "float-tiny": ["fl", (5e-324).hex()],
+    "float-huge": ["fl", (1.7e308).hex()],
+    "StdDecimal-inf": ["SD", "Infinity"], "int-huge": ["i", 10 ** 400],
     "int-zero": ["i", 0], "float-zero": ["fl", (0.0).hex()],
     "Decimal-zero": ["D", "0"], "Fraction-zero": ["F", 0, 1],
 }
